@@ -37,6 +37,7 @@ type Scenario struct {
 	AtomicRequests bool
 	Known          map[string]bool // signatures of listed known findings
 	ClockWhenIdle  bool            // the clock only advances while no client request is in flight
+	StrictDeviations bool          // bounded mode: every non-default choice costs one deviation
 	// Menu is a virtual client that, whenever idle, may issue ANY request of the
 	// menu, up to MenuDepth requests: enumerates operation sequences.
 	Menu      []ReqF
@@ -183,6 +184,9 @@ func (sc *Scenario) RunOnce(ch *vx.Chooser, keepLog bool) (res *ExecResult) {
 		costs := make([]int, len(opts))
 		for i, o := range opts {
 			labels[i], costs[i] = o.label, o.cost
+			if sc.StrictDeviations && i > 0 && costs[i] == 0 {
+				costs[i] = 1 // every departure from the canonical schedule counts
+			}
 		}
 		opts[ch.Choose(labels, costs)].apply()
 	}
